@@ -24,6 +24,7 @@ From MV Require IH5.Client.
 From MV Require Toc.Sync.
 From MV Require Toc.Query.
 From MV Require Toc.SelfDesc.
+From MV Require Bridge.BridgeRun.
 Import ListNotations.
 Local Open Scope string_scope.
 
@@ -52,5 +53,6 @@ Definition dispatch (x : sx) : sx :=
   | L [A "c07"; c] => Toc.Query.run_c07 c
   | L [A "c20"; c] => Toc.SelfDesc.run_c20 c
   | L [A "c11j"; c] => Rec.JsonGrammar.run_c11j c
+  | L [A "bridge"; c] => Bridge.BridgeRun.run_bridge c
   | _ => sx_bad "dispatch"
   end.
